@@ -181,6 +181,8 @@ func (a *c10Alphabet) describeOp(op int) string {
 	switch {
 	case op == c10OpFirstAgain:
 		return "Process(the first object of the history again)"
+	case op == c10OpAtFirstPTS:
+		return "Process(fresh filler-type descriptor, event 7, with the signal time of the first object)"
 	case op < np:
 		v := a.process[op]
 		p := "noPTS"
@@ -214,21 +216,36 @@ func (a *c10Alphabet) describeOp(op int) string {
 // with another event id and another signal time neither closes an open x nor an open y (so that x
 // stays open while fillers with other signal times go by).
 func c10ResubmitTypes() (x, y int) {
-	for _, x = range []int{0x36, 0x34, 0x30, 0x40, 0x20, 0x10} {
-		if !ref.OutTypes[x] {
-			continue
-		}
-		for _, y = range c10NamedTypes {
-			if ref.OutTypes[y] && !ref.CanClose(y, x, false, false, true) && !ref.CanClose(y, y, false, false, true) && y != x {
-				return x, y
-			}
+	for _, x = range c10ResubmitXs {
+		if y = c10FillerFor(x); y >= 0 {
+			return x, y
 		}
 	}
 	panic("c10: no resubmission type pair")
 }
 
+// c10ResubmitXs: the opening types that take the part of the re-submitted descriptor (first entry: the default).
+var c10ResubmitXs = []int{0x36, 0x34, 0x30, 0x32, 0x40, 0x44, 0x20, 0x22, 0x10, 0x17, 0x19, 0x50}
+
+// c10FillerFor returns an opening type y != x that closes neither an open x nor an open y (-1: none).
+func c10FillerFor(x int) int {
+	if !ref.OutTypes[x] {
+		return -1
+	}
+	for _, y := range c10NamedTypes {
+		if ref.OutTypes[y] && y != 0x14 && y != x && !ref.CanClose(y, x, false, false, true) && !ref.CanClose(y, y, false, false, true) {
+			return y
+		}
+	}
+	return -1
+}
+
 // c10OpFirstAgain (only in enumerated long histories): Process(the first object of the history) once more.
 const c10OpFirstAgain = -2
+
+// c10OpAtFirstPTS (only in enumerated long histories): Process(a fresh descriptor of the filler type, event 7, with
+// the signal time of the first object): re-creates a record for that signal time which does not hold the first object.
+const c10OpAtFirstPTS = -3
 
 func c10Apply(s *c10State, op int, res *engine.Result, depth int) bool {
 	a := s.alpha
@@ -252,6 +269,18 @@ func c10Apply(s *c10State, op int, res *engine.Result, depth int) bool {
 		}
 		kind = "ProcessEarlierObjectAgain"
 		incoming = s.first
+	case op == c10OpAtFirstPTS:
+		// a fresh, different descriptor that carries the signal time of the first object of the history
+		if s.first == nil {
+			return false
+		}
+		kind = "Process"
+		y := c10FillerFor(s.first.v.Type)
+		if y < 0 {
+			return false
+		}
+		v := c19Val{Type: y, Event: 7, HasPTS: true, PTS: s.first.v.PTS}
+		incoming = s.mk(v)
 	case op < np:
 		kind = "Process"
 		v := a.process[op]
@@ -628,6 +657,16 @@ type c10Long struct {
 	N       int    `json:"n"`
 	Again   int    `json:"again_at"` // position after which the same object is processed again (-1: never)
 	Alpha   string `json:"alphabet,omitempty"`
+	X       int    `json:"resubmitted_type_index,omitempty"`
+}
+
+// resubmit: the re-submitted type (X-th entry of c10ResubmitXs that has a filler) and its filler type.
+func (c c10Long) resubmit() (x, y int) {
+	x = c10ResubmitXs[c.X%len(c10ResubmitXs)]
+	if y = c10FillerFor(x); y < 0 {
+		return c10ResubmitTypes()
+	}
+	return x, y
 }
 
 func (c c10Long) alphabet() *c10Alphabet {
@@ -687,17 +726,47 @@ func c10LongHistory(c c10Long) []int {
 			h = append(h, idx(0x10, ev(i)), idx(0x13, ev(i)), idx(0x22, ev(i)), idx(0x13, ev(i+1)), idx(0x41, ev(i)), idx(0x50, 1), idx(0x14, ev(i)), idx(0x51, 1), closeOp(1))
 		}
 	case 8: // an opening descriptor, N others with N other signal times that do not close it, then the first one again
-		x, y := c10ResubmitTypes()
+		x, y := c.resubmit()
 		h = append(h, idx(x, 3))
 		for i := 0; i < c.N; i++ {
 			h = append(h, idx(y, uint32(1+i%2)))
 		}
 		h = append(h, c10OpFirstAgain)
 	case 9: // the same with the first descriptor closed explicitly in between (a legitimate re-opening when remembered no more)
-		x, y := c10ResubmitTypes()
+		x, y := c.resubmit()
 		h = append(h, idx(x, 3), closeOp(0))
 		for i := 0; i < c.N; i++ {
 			h = append(h, idx(y, uint32(1+i%2)))
+		}
+		h = append(h, c10OpFirstAgain)
+	case 13: // pattern 9 with the first descriptor closed by its own end descriptor instead of an explicit Close
+		x, y := c.resubmit()
+		h = append(h, idx(x, 3))
+		closedByEnd := false
+		for i, v := range a.process {
+			if v.Type == x+1 && v.Event == 3 && !ref.OutTypes[x+1] && ref.CanClose(x+1, x, true, false, true) {
+				h = append(h, i)
+				closedByEnd = true
+				break
+			}
+		}
+		if !closedByEnd {
+			h = append(h, closeOp(0))
+		}
+		for i := 0; i < c.N; i++ {
+			h = append(h, idx(y, uint32(1+i%2)))
+		}
+		h = append(h, c10OpFirstAgain)
+	case 11, 12: // pattern 8, but before the first object comes back another descriptor arrives with ITS signal time
+		// (pattern 12: and one more filler): the tracker then has a record for that time which lacks the first object
+		x, y := c.resubmit()
+		h = append(h, idx(x, 3))
+		for i := 0; i < c.N; i++ {
+			h = append(h, idx(y, uint32(1+i%2)))
+		}
+		h = append(h, c10OpAtFirstPTS)
+		if c.Pattern == 12 {
+			h = append(h, idx(y, 3))
 		}
 		h = append(h, c10OpFirstAgain)
 	case 5: // N pairwise different descriptors that all carry one signal time (event-major order)
@@ -756,15 +825,17 @@ func init() {
 				"distinct-pts", "distinct-pts", 4, 5),
 			&engine.Enum[c10Long]{
 				Name: "long-histories",
-				Rule: "two re-submission patterns (a chapter start, N = 0..15 other signals with other signal times that leave it open [or after it was closed explicitly], then the same object again: while its signal time is still on record it must be rejected as a duplicate with the list unchanged; it may never sit in the open list twice; re-opening a descriptor that had been reported closed once its signal time is forgotten is the recorded known finding) and five history patterns (start/end pairs; many chapters closed by one program end; breakaway/resumption cycles with content opened in the blackout; placement opportunities with explicit closes; nested breakaways closed by unscheduled-event and network signals) repeated N = 1..12 (thorough 1..40) times with always-distinct PTS (histories of up to ~360 calls, beyond the 10-slot duplicate ring), each also with the same object processed again after every position; the identity monitor runs after every call." + common,
+				Rule: "five re-submission patterns (an opening descriptor of each of 12 types, N = 0..15 other signals with other signal times that leave it open [or after it was closed explicitly or by its own end descriptor; or followed by a different descriptor that carries the FIRST one's signal time, and one more filler, so that a record for that time exists which lacks the first object], then the same object again: while its signal time is still on record it must be rejected as a duplicate with the list unchanged; it may never sit in the open list twice; re-opening a descriptor that had been reported closed once its signal time is forgotten is the recorded known finding) and five history patterns (start/end pairs; many chapters closed by one program end; breakaway/resumption cycles with content opened in the blackout; placement opportunities with explicit closes; nested breakaways closed by unscheduled-event and network signals) repeated N = 1..12 (thorough 1..40) times with always-distinct PTS (histories of up to ~360 calls, beyond the 10-slot duplicate ring), each also with the same object processed again after every position; the identity monitor runs after every call." + common,
 				Gen: func(r *engine.Run, emit func(c10Long)) {
 					maxN := 12
 					if r.Thorough() {
 						maxN = 40
 					}
-					for p := 8; p <= 9; p++ {
-						for n := 0; n <= 15; n++ {
-							emit(c10Long{Pattern: p, N: n, Again: -1})
+					for _, p := range []int{8, 9, 11, 12, 13} {
+						for x := range c10ResubmitXs {
+							for n := 0; n <= 15; n++ {
+								emit(c10Long{Pattern: p, N: n, Again: -1, X: x})
+							}
 						}
 					}
 					for p := 0; p < 5; p++ {
